@@ -166,7 +166,31 @@ fn operand_json<'tcx>(tcx: TyCtxt<'tcx>, body: &Body<'tcx>, o: &Operand<'tcx>) -
                     }
                 }
                 let t = if t.len() > 160 { t[t.len() - 160..].to_string() } else { t };
-                format!("{{\"c\":{},\"ty\":{}}}", q(&t), q(&tys(c.const_.ty())))
+                let mut val = String::new();
+                if let Const::Unevaluated(u, _) = c.const_ {
+                    if u.promoted.is_none() && u.args.is_empty() && c.const_.ty().is_primitive() {
+                        if let Ok(ConstValue::Scalar(interpret::Scalar::Int(si))) = tcx.const_eval_poly(u.def) {
+                            let bits = si.to_bits(si.size());
+                            let cty = c.const_.ty();
+                            let v = match cty.kind() {
+                                ty::Float(ty::FloatTy::F64) => format!("{:?}", f64::from_bits(bits as u64)),
+                                ty::Float(ty::FloatTy::F32) => format!("{:?}", f32::from_bits(bits as u32)),
+                                ty::Uint(_) => format!("{}", bits),
+                                ty::Int(_) => {
+                                    let sz = si.size().bits();
+                                    let sh = 128 - sz;
+                                    format!("{}", ((bits as i128) << sh) >> sh)
+                                }
+                                ty::Bool => format!("{}", bits != 0),
+                                _ => String::new(),
+                            };
+                            if !v.is_empty() {
+                                val = format!(",\"v\":{}", q(&v));
+                            }
+                        }
+                    }
+                }
+                format!("{{\"c\":{},\"ty\":{}{}}}", q(&t), q(&tys(c.const_.ty())), val)
             }
         }
         #[allow(unreachable_patterns)]
